@@ -25,7 +25,7 @@ struct Setup {
   }
 };
 
-void one_case(Ctx &c) {
+void case_impl(Ctx &c, bool prefix) {
   Setup S(c); S.build(c);
   Sim &s = S.s; World &w = S.w;
   SdoClient cl(s, w.req[0], w.rsp[0]);
@@ -54,7 +54,20 @@ void one_case(Ctx &c) {
 #endif
   int ntransfers = 1 + (int)c.t.below(c.thorough ? 4 : 3);
   bool nt = false;
+  int prefixes = 0;
   for (int tr = 0; tr < ntransfers && !c.t.exhausted(); tr++) {
+    // mode after-server-abort: the transfer before this one was a segmented upload which the SERVER ended with a toggle error after k segments
+    // (the client then starts its next transfer, as a conforming client does): nothing of it may leak into the download under test
+    if (prefix && c.t.chance(150) && w.objs[12].size > 21) {
+      TObj &po = w.objs[12]; int k = 1 + (int)c.t.below(2); std::vector<Frame> keep = s.tx;
+      s.clear_tx(); s.rx(cl.mk(0x40, po.idx, po.sub, 0));
+      for (int i = 0; i < k; i++) { Frame q = cl.mk((uint8_t)(0x60 | ((i & 1) << 4)), 0, 0, 0); s.rx(q); }
+      s.clear_tx(); Frame bad = cl.mk((uint8_t)(0x60 | (((k & 1) ^ 1) << 4)), 0, 0, 0); s.rx(bad);     // wrong toggle
+      bool ab = false; for (auto &t : s.tx) if (t.id == w.rsp[0] && t.d[0] == 0x80 && t.u32(4) == 0x05030000u) ab = true;
+      CHECK(c, ab, "dl-init-response", "a segment request with the wrong toggle bit (after %d upload segments of %04X:%02X) was not aborted with 0503 0000h", k, po.idx, po.sub);
+      VLOG(c, " (previous transfer: segmented upload of %04X:%02X ended by the server with a toggle error after %d segments)", po.idx, po.sub, k);
+      s.tx = keep; prefixes++;
+    }
     TObj &o = w.objs[c.t.chance(80) ? 12 : c.t.below(14)];     // 12 integer kinds + 2 domains (the large one favoured)
     uint32_t mode = c.t.below(3);         // 0 expedited, 1 segmented, 2 block
     bool ind = c.t.coin();
@@ -116,17 +129,22 @@ void one_case(Ctx &c) {
     c.ops += r.requests;
   }
   if (junk_frames) { nt = true; c.cls("second-server-interleaved"); }
+  if (prefixes) c.cls("previous-transfer-ended-by-server-toggle-abort");
   c.nontrivial = nt;
 }
+
+void one_case(Ctx &c) { case_impl(c, false); }
+void prefix_case(Ctx &c) { case_impl(c, true); }
 
 Registrar reg(Prop{
     "C02",
     "Cases: node id 1..127; dictionary with all 12 writable integer kinds {8,16,32 bit} x {direct, referenced} x {plain, node-id relative} and domains of 1..2000 (4000 in thorough) bytes, sizes boundary-biased around 4,7,8,14,889,890,896,1778; "
     "1..3 transfers by a reference conforming client: expedited / segmented / block, size announced or not, payload any length the object can hold (domains: 1..size), random fill of the last segment, up to 3 (6) segments lost in transit inside block sub-blocks followed by go-back-N retransmission, "
     "in build n2 interleaved with traffic on the second server addressing other objects; 1 in 9 integer transfers use a wrong length and must then be refused without effect. "
-    "Oracle: every response checked against CiA 301 (command, toggle, ackseq, block size 1..127, multiplexer), then a snapshot of ALL object storage must equal the snapshot before with exactly the payload applied. "
+    "Mode after-server-abort: a segmented upload which the server ended with a toggle error precedes the download under test. Oracle: every response checked against CiA 301 (command, toggle, ackseq, block size 1..127, multiplexer), then a snapshot of ALL object storage must equal the snapshot before with exactly the payload applied. "
     "Non-trivial: a confirmed transfer of >= 2 request/response round trips, or a retransmission, or interleaved second-server traffic. Distinct = distinct decoded choice sequence.",
-    {Mode{"random", one_case, false, 1500000, 30000000, 0, 0, 200, 400}},
+    {Mode{"random", one_case, false, 1100000, 22000000, 0, 0, 200, 400},
+     Mode{"after-server-abort", prefix_case, false, 400000, 8000000, 0, 0, 200, 400}},
     {"a payload longer than the object is outside the domain (the object cannot hold it); for integers a length different from the width must be refused",
      "losses never hit the final segment of a sub-block (a conforming client would time out and abort, which is no confirmed download)",
      "reserved bytes of responses are not compared; the next block size may be any value 1..127 and is honoured by the client"}});
